@@ -24,6 +24,9 @@ type Call struct {
 	Count  int
 	// Succ: for Search, attempt k of the whole call succeeds iff Succ[k%len(Succ)] (all-true when empty)
 	Succ []bool
+	// Dry: the search space holds exactly Count successes: once Count attempts have succeeded every further attempt
+	// fails ("Search queries the function f, until count successes are found")
+	Dry bool
 }
 
 // Case is a sequence of pool calls on one pool, executed under a harness-chosen schedule.
@@ -74,7 +77,7 @@ func runScheduledOnce(c Case) (out outcome) {
 	for callNo, call := range c.Calls {
 		type result struct{ vals []interface{} }
 		done := make(chan result, 1)
-		var attempts int64
+		var attempts, successes int64
 		started := make(chan int, 1)
 		go func(call Call) {
 			started <- curGID()
@@ -83,6 +86,9 @@ func runScheduledOnce(c Case) (out outcome) {
 				r = p.Search(call.Count, func() interface{} {
 					k := int(atomic.AddInt64(&attempts, 1) - 1)
 					if len(call.Succ) == 0 || call.Succ[k%len(call.Succ)] {
+						if call.Dry && atomic.AddInt64(&successes, 1) > int64(call.Count) {
+							return nil
+						}
 						return k + 1
 					}
 					return nil
@@ -250,7 +256,9 @@ func classify(c Case, o outcome) (string, bool) {
 	kinds := ""
 	total := 0
 	for _, call := range c.Calls {
-		if call.Search {
+		if call.Search && call.Dry {
+			kinds += "D"
+		} else if call.Search {
 			kinds += "S"
 		} else {
 			kinds += "P"
@@ -293,6 +301,7 @@ func genCase(t *rapid.T) Case {
 			if !any {
 				call.Succ[0] = true // a search whose predicate never succeeds does not terminate by specification
 			}
+			call.Dry = rapid.IntRange(0, 3).Draw(t, "dry") == 0
 		}
 		c.Calls = append(c.Calls, call)
 	}
@@ -427,7 +436,7 @@ func runFree(c freeCase) *pbt.Fail {
 	for callNo, call := range c.Calls {
 		done := make(chan []interface{}, 1)
 		started := make(chan int, 1)
-		var attempts int64
+		var attempts, successes int64
 		go func(call Call) {
 			started <- curGID()
 			if call.Search {
@@ -435,6 +444,9 @@ func runFree(c freeCase) *pbt.Fail {
 					body(c.Body)
 					k := int(atomic.AddInt64(&attempts, 1) - 1)
 					if len(call.Succ) == 0 || call.Succ[k%len(call.Succ)] {
+						if call.Dry && atomic.AddInt64(&successes, 1) > int64(call.Count) {
+							return nil
+						}
 						return k + 1
 					}
 					return nil
@@ -524,6 +536,7 @@ func TestFree(t *testing.T) {
 			if call.Search {
 				call.Count = rapid.IntRange(0, 6).Draw(rt, "scount")
 				call.Succ = rapid.SampledFrom([][]bool{nil, {true, false}, {false, false, false, true}, {true}}).Draw(rt, "succ")
+				call.Dry = rapid.IntRange(0, 3).Draw(rt, "dry") == 0
 			}
 			c.Calls = append(c.Calls, call)
 		}
